@@ -12,6 +12,7 @@ CONSTANTS
   RootHashBeforeCommit = TRUE
   PrevEpochChecked = TRUE
   ReadersSeePendingEpoch = TRUE
+  RollbackReleasesFlag = TRUE
   ExportSched = FALSE
 VIEW View
 INIT MCInit
